@@ -48,7 +48,7 @@ SrcObj == [path |-> "$src"]
 C(c, args, need, res, eff) == [c |-> c, args |-> args, need |-> need, res |-> res, eff |-> eff]
 Commands ==
   << C("initialize", <<A("adapterID", "bugstalker", "str"), A("linesStartAt1", TRUE, "bool")>>, "none", "ok", "q"),
-     C("launch", <<AH("program", "$puppet", "str"), A("args", <<"x">>, "arr"), A("stopOnEntry", FALSE, "bool")>>, "none", "any", "start"),
+     C("launch", <<AH("program", "$puppet", "str"), A("args", <<"plain">>, "arr"), A("stopOnEntry", FALSE, "bool")>>, "none", "any", "start"),
      C("attach", <<AH("pid", "not-a-pid", "str")>>, "none", "any", "q"),
      C("configurationDone", <<>>, "none", "any", "resume"),
      C("setBreakpoints", <<A("source", SrcObj, "obj"), A("breakpoints", <<[line |-> "$probe"]>>, "arr")>>, "none", "any", "q"),
@@ -128,10 +128,10 @@ MutPairs(args, j, m) ==
   IF m[1] = "drop" THEN [i \in 1..(Len(args) - 1) |-> IF i < j THEN <<args[i].k, args[i].v>> ELSE <<args[i + 1].k, args[i + 1].v>>]
   ELSE [i \in DOMAIN args |-> IF i = j THEN <<args[i].k, m[2]>> ELSE <<args[i].k, args[i].v>>]
 
-(* admissible outcome classes of a request in a session state; st in {"fresh", "stopped"} *)
+(* admissible outcome classes of a request in a session state; st in {"fresh", "stopped"}.  Whether a request
+   that needs a debuggee is refused or answered with an empty result before `launch` is C12's business. *)
 Outcome(c, shape, st) ==
   IF shape = "valid" /\ c.res = "ok" /\ (c.need = "none" \/ st = "stopped") THEN {"ok"}
-  ELSE IF shape = "valid" /\ c.need = "dbg" /\ st = "fresh" THEN {"error"}
   ELSE {"ok", "error"}
 (* may the session be gone / the debuggee be somewhere else afterwards? *)
 MayEnd(c) == c.eff = "end"
